@@ -38,25 +38,28 @@ type respOp struct {
 
 // world is one run's environment: it implements simrt.Env.
 type world struct {
-	plan   *Plan
-	actors []*actorState
-	byName map[string]*actorState
-	conns  []*connState
-	hist   []Ev
-	epoch  time.Time
-	calls  int
-	rets   int
-	faults map[string]int
-	svc    *svcHarness
-	att    *attHarness
-	retain []*retained
-	attEvs []AttEv
-	parseViol []Violation
-	stabViol  []Violation
+	plan       *Plan
+	actors     []*actorState
+	byName     map[string]*actorState
+	conns      []*connState
+	hist       []Ev
+	epoch      time.Time
+	calls      int
+	rets       int
+	faults     map[string]int
+	faultLog   []string
+	parseCalls int
+	svc        *svcHarness
+	att        *attHarness
+	retain     []*retained
+	attEvs     []AttEv
+	parseViol  []Violation
+	stabViol   []Violation
 	// rare-condition probes
 	rare map[string]int
 }
 
+//go:norace
 func (w *world) now() int64 { return int64(time.Since(w.epoch)) }
 
 //go:norace
@@ -69,8 +72,10 @@ func (w *world) rec(e Ev) {
 	simrt.EvLog("H", e.K, fmt.Sprint(e.C), fmt.Sprint(e.ID), fmt.Sprint(e.Ser), fmt.Sprint(e.N), e.Err, e.Key)
 }
 
-func (w *world) fault(kind string) { w.faults[kind]++ }
+//go:norace
+func (w *world) fault(kind string) { w.faultLog = append(w.faultLog, kind) }
 
+//go:norace
 func (w *world) enabled(as *actorState) (bool, string) {
 	if as.pc >= len(as.a.Ops) {
 		return false, ""
@@ -113,6 +118,8 @@ func (w *world) enabled(as *actorState) (bool, string) {
 }
 
 // Actions implements simrt.Env.
+//
+//go:norace
 func (w *world) Actions(quiet bool) []simrt.Action {
 	var out []simrt.Action
 	for _, as := range w.actors {
@@ -142,6 +149,8 @@ func (w *world) Actions(quiet bool) []simrt.Action {
 }
 
 // NextDeadline implements simrt.Env.
+//
+//go:norace
 func (w *world) NextDeadline() (time.Time, bool) {
 	var best time.Time
 	found := false
@@ -164,6 +173,7 @@ func (w *world) NextDeadline() (time.Time, bool) {
 	return best, found
 }
 
+//go:norace
 func (w *world) exec(as *actorState) {
 	op := &as.a.Ops[as.pc]
 	ci := as.a.Conn
@@ -224,6 +234,8 @@ func (w *world) exec(as *actorState) {
 }
 
 // respond sends the next queued reactive response of a connection.
+//
+//go:norace
 func (w *world) respond(cs *connState) {
 	r := cs.resp[0]
 	cs.resp = cs.resp[1:]
@@ -314,6 +326,8 @@ func (w *world) onServerRead(p *simnet.Peer, n int, err error) {
 
 // isPlatformCommand: platform-originated IDs that are commands (expect a terminal response), as opposed to
 // the automatic replies 0x8001, 0x8100, 0x8800, 0x9212 and the re-request 0x8003.
+//
+//go:norace
 func isPlatformCommand(id uint16) bool {
 	switch id {
 	case 0x8001, 0x8100, 0x8800, 0x9212, 0x8003:
@@ -324,6 +338,8 @@ func isPlatformCommand(id uint16) bool {
 
 // responseFor gives the terminal's response type and body for a platform command (from the standard's
 // command/response pairing): the body starts with the command's serial number.
+//
+//go:norace
 func responseFor(cmd, serial uint16) (uint16, []byte) {
 	s := []byte{byte(serial >> 8), byte(serial)}
 	switch cmd {
